@@ -11,6 +11,12 @@ EXPLANATION = ("Every function between the leaf handlers and the dispatch is sym
                "through the same decorators and dispatch the code uses; callees are replaced by their derived contracts.")
 
 
+
+def owns(ob_):
+    # what a private helper returns is observable only through its callers, whose own clause of the same name is a property clause;
+    # on the helper it is a helper clause (a caller that returns the message itself does not need it: benign/two_1_2)
+    return not (ob_["name"] == "C04/yields-the-message" and "._handle_sleep_buffer" in ob_.get("unit", ""))
+
 def build(world):
     from . import gateway_units as gu
     return hc.build_for(world, PROP) + gu.model_units(world)
